@@ -433,6 +433,8 @@ H("conn_path_response_native", ["C15", "C07"], "replay-only", "connection::path_
   [("mode", "u8")], 4, [], ["Connection::handle_event", "Connection::process_payload"], "native replay body of E2 slice query e2_path_response_slice")
 H("conn_detect_lost_native", ["C12"], "replay-only", "connection::detect_lost_native",
   [("age_ms", "u16")], 4, [], ["Connection::detect_lost_packets"], "native replay body of E2 slice query e2_detect_lost_iteration_slice")
+H("streams_retransmit_all_0rtt_native", ["C17", "C01"], "replay-only", "connection::streams::retransmit_all_0rtt_native",
+  [("len_", "u8"), ("partial", "bool")], 4, [], ["StreamsState::retransmit_all_for_0rtt", "StreamsState::write_stream_frames", "SendStream::finish"], "native replay body of E2 slice query e2_retransmit_all_for_0rtt_iteration")
 H("streams_stop_sending_native", ["C11"], "replay-only", "connection::streams::stop_sending_native",
   [("state", "u8")], 4, [], ["StreamsState::received_stop_sending", "Send::try_stop", "SendStream::write"], "native replay body of E2 query e2_received_stop_sending")
 H("streams_reset_acked_native", ["C11"], "replay-only", "connection::streams::reset_acked_native",
